@@ -1309,7 +1309,12 @@ class ModelMixin:
         out = []
         mark = len(st.trace)
         # exceptional exits
-        for ecls, when in c.raise_when.items():
+        # every exception class the contract ALLOWS at its root is one the caller must be prepared for: a class without
+        # an explicit raise_when condition may be raised at any time (sound over-approximation of the callee)
+        whens = dict(c.raise_when)
+        for k in c.raises:
+            whens.setdefault(k, lambda c_: None)
+        for ecls, when in whens.items():
             s2 = st.fork()
             ctx2 = CallCtx(self, finfo, env, self_val, pre, s2, None, None, mark)
             cond = when(ctx2)
@@ -1324,9 +1329,10 @@ class ModelMixin:
             eff = c.raise_effects.get(ecls)
             if eff is not None:
                 exc = eff(ctx2, s2, exc) or exc
-            if c.events:
-                s2.trace.append(Event('call', finfo.qualname, self_val, args, kwargs, None, line, s2.held,
-                                      extra={'raised': exc, 'env': env, 'pre': pre}))
+            # an exceptional exit is always recorded (also for callees whose normal calls leave no event): the caller's
+            # "this exception came from a callee" clauses need it
+            s2.trace.append(Event('call', finfo.qualname, self_val, args, kwargs, None, line, s2.held,
+                                  extra={'raised': exc, 'env': env, 'pre': pre}))
             out.append(rs(exc, s2))
         # normal exit
         result = None
